@@ -201,7 +201,9 @@ def execute(cases, exe, tag, la, lf, costlimit=300000, go_suffix_limit=3000000):
     cf = os.path.join(d, "cases_%s.txt" % tag)
     with open(cf, "w") as f:
         for i, c in enumerate(cases):
-            f.write("%d %s %s %d %d\n" % (i, c["re"].encode("latin-1").hex() or "-", c["alpha"].encode("latin-1").hex(), c.get("la", la), c.get("lf", lf)))
+            probes = ",".join(x.encode("latin-1").hex() for x in c.get("probes", []))
+            f.write("%d %s %s %d %d%s\n" % (i, c["re"].encode("latin-1").hex() or "-", c["alpha"].encode("latin-1").hex(), c.get("la", la), c.get("lf", lf),
+                                            (" " + probes) if probes else ""))
     iout, mcf, mout = os.path.join(d, "impl_%s.out" % tag), os.path.join(d, "mcases_%s.txt" % tag), os.path.join(d, "model_%s.out" % tag)
     for p in (iout, mout):
         if os.path.exists(p):
@@ -285,7 +287,7 @@ def main(tier, seed, replay=None):
     cdir = os.path.join(ROOT, "corpus", PROP)
     if replay:
         r = json.load(open(replay))
-        cases = [{"re": r["re"], "alpha": r.get("alpha", "abc"), "covered": r.get("covered", False)}]
+        cases = [{"re": r["re"], "alpha": r.get("alpha", "abc"), "covered": r.get("covered", False), "probes": r.get("probes", [])}]
     else:
         if os.path.isdir(cdir):
             for fn in sorted(os.listdir(cdir)):
@@ -293,6 +295,13 @@ def main(tier, seed, replay=None):
                 cases.append({"re": r["re"], "alpha": r.get("alpha", "abc"), "covered": r.get("covered", False)})
         for e in FIXED:
             cases.append({"re": e, "alpha": "abc", "covered": False})
+        # expressions whose suffix walk exceeds the call budget, with literal text around the alternations and a constructed match
+        for _ in range(3):
+            head, tail = rng.choice(["id=", "ab", "x"]), rng.choice([";", "b", "ca"])
+            w1, w2 = rng.choice([("ab", "c"), ("ba", "c"), ("aa", "b")])
+            n = 18
+            cases.append({"re": "%s(?:%s|%s){%d}%s" % (head, w1, w2, n, tail), "alpha": "abc", "covered": False,
+                          "probes": [head + w2 * n + tail, head + w1 * n + tail, "c" + head + (w1 + w2) * (n // 2) + tail + "c"]})
         for i in range(ncase):
             cases.append(gen_case(rng, i))
     for c in cases:
@@ -336,7 +345,8 @@ def main(tier, seed, replay=None):
             lits = [ch for ch in dict.fromkeys(c["re"]) if ch.isalnum() or ch in " _-"]
             for alpha in (c["alpha"], "".join(lits[:4]), "".join(lits[:3]) + "\n"):
                 if len(alpha) >= 2:
-                    deep.append({"re": c["re"], "alpha": alpha, "covered": False, "la": 5, "lf": 8 if len(alpha) <= 3 else 7, "orig": i})
+                    deep.append({"re": c["re"], "alpha": alpha, "covered": False, "la": 5, "lf": 8 if len(alpha) <= 3 else 7, "orig": i,
+                                 "probes": c.get("probes", [])})
         stats["deep_searches"] = len(deep)
         dimpl, dmodel, _, _, _ = execute(deep, exe, "deep", 5, 8)
         for k, dc in enumerate(deep):
@@ -347,7 +357,7 @@ def main(tier, seed, replay=None):
     verdicts.sort(key=lambda x: 0 if x[4][0] == "impl" else 1)
     for i, c, g, m, v in verdicts[:5]:
         kind, text = v
-        obj = {"property": PROP, "re": c["re"], "alpha": c["alpha"], "covered": c["covered"], "what": text,
+        obj = {"property": PROP, "re": c["re"], "alpha": c["alpha"], "covered": c["covered"], "probes": c.get("probes", []), "what": text,
                "impl": {k: x for k, x in (g or {}).items() if k not in ("insts", "acc")},
                "model": {k: x for k, x in (m or {}).items() if k != "acc"}, "program": (g or {}).get("insts"),
                "seed": seed, "replay_cmd": "bin/check C18 --replay <this file>"}
